@@ -15,6 +15,7 @@ UC = "crystal/unit_cell.py"
 SITES = ["atoms_in_radius", "atomic_surroundings", "atom_group_surroundings", "molecule_environment",
          "functional_group_surroundings", "molecular_shell", "symmetry_unique_dimers"]
 SLAB_SITES = SITES[:5]
+MOLECULE_CENTRED = ("atom_group_surroundings", "molecule_environment", "functional_group_surroundings")
 
 
 def uc_resolver(chk):
@@ -253,6 +254,15 @@ def extent_rules(chk, cr, q, ev, resolver, helper=False):
             sp = space_of(p)
             chk.ob("R03.3", CR, "Crystal." + q, f"{kind}(): the centre position is fractional", sp != "cart", node=e.node,
                    fingerprint=f"space:{kind}", expected="fractional coordinates", found=f"{p} tagged {sp}", nontrivial=sp is not None)
+    if chk.want("R03.2") and q in MOLECULE_CENTRED:
+        # a centre that is a set of atoms: "within the radius of the nearest atom of the molecule" needs the range to be taken over
+        # every atom's position, not over one representative point of the molecule
+        for kind, a, (E, p, ratom), e in found:
+            reps = find_atoms(p, lambda t: t[0] == "attr" and t[2] in ("center_of_mass", "centroid", "centre_of_mass"))
+            atoms_ = find_atoms(p, lambda t: t[0] == "attr" and t[2] == "positions") or "positions" in p.key()
+            chk.ob("R03.2", CR, "Crystal." + q, f"{kind}(): the range is taken over the positions of all atoms of the centre", bool(atoms_) and not reps,
+                   node=e.node, fingerprint=f"all-atoms:{kind}", expected="every atom position of the molecule / group",
+                   found=f"{p}"[:140])
     if chk.want("R03.2"):
         # ceil and floor use the same centre and the same extent
         ce = [(E, reducer_of(p)) for k, a, (E, p, r), e in found if k == "ceil"]
